@@ -21,11 +21,15 @@ def classify(case):
     q = case.get("req", {})
     st = o.get("status")
     hdr = o.get("header") or {}
-    tags = "host=%s,cred=%s" % (q.get("host_tag", "?"), q.get("cred_tag", "?"))
+    ht = q.get("host_tag", "?")
+    hclass = "alias" if ht.startswith("alias") else ht.split("-")[0]
+    ct = q.get("cred_tag", "?")
+    tags = "host-class=%s,cred=%s" % (hclass, "exact" if ct in ("exact", "colon-shift", "user-with-colon", "trailing-space",
+                                                                  "name-lower", "name-upper", "nonstrict-bits") else
+                                      ("absent-or-wrong" if q.get("method") else "?"))
     if st == 407 and not any(v.startswith("Basic") for v in hdr.get("Proxy-Authenticate", [])):
         return "407-without-challenge"
     if o.get("from_peer"):
-        ht = q.get("host_tag", "")
         if "unspec" in ht:
             return "unspecified-literal-forwarded-under-deny"
         return "forwarded-although-a-check-fails:" + tags
